@@ -17,6 +17,7 @@ import (
 
 	envoy "github.com/envoyproxy/go-control-plane/envoy/service/auth/v3"
 	"google.golang.org/protobuf/encoding/protojson"
+	"google.golang.org/protobuf/proto"
 
 	configv1 "github.com/istio-ecosystem/authservice/config/gen/go/v1"
 	oidcv1 "github.com/istio-ecosystem/authservice/config/gen/go/v1/oidc"
@@ -108,15 +109,21 @@ func loadDispatchConfig(doc map[string]any, tmp string) (*configv1.Config, error
 	return cfg, nil
 }
 
+// newFilter assembles the service the way cmd/main.go does: every unit is constructed around the configuration object
+// while it is still EMPTY, the configuration is loaded into that very object afterwards, then the units' PreRun steps run.
+// (A unit that copies something out of the configuration when it is constructed keeps the empty value.)
 func newFilter(cfg *configv1.Config) (*server.ExtAuthZFilter, *atomic.Int64, error) {
 	ctx := context.Background()
+	late := &configv1.Config{}
 	pool := internal.NewTLSConfigPool(ctx)
-	fac := oidc.NewSessionStoreFactory(cfg)
+	fac := oidc.NewSessionStoreFactory(late)
+	calls := &atomic.Int64{}
+	flt := server.NewExtAuthZFilter(late, pool, oidc.NewJWKSProvider(late, pool), &countingFactory{real: fac, calls: calls})
+	proto.Merge(late, cfg) // "the configuration file is loaded"
 	if err := fac.PreRun(); err != nil {
 		return nil, nil, err
 	}
-	calls := &atomic.Int64{}
-	return server.NewExtAuthZFilter(cfg, pool, oidc.NewJWKSProvider(cfg, pool), &countingFactory{real: fac, calls: calls}), calls, nil
+	return flt, calls, nil
 }
 
 func dispatchReq(path string, hdrs map[string]string) *envoy.CheckRequest {
